@@ -52,15 +52,17 @@ CTX = {
     "rb": [("yard", 1, {"meter": 1})],
     "rn": [],
     "sp": [],          # the bundled spectroscopy context: transformation rules, no redefinitions
+    "boltzmann": [],   # bundled: [temperature] <-> [energy]
+    "energy": [],      # bundled: [energy] <-> [mass]
 }
-RULES = {"sp"}
+RULES = {"sp", "boltzmann", "energy"}
 REDEF = {n for n, r in CTX.items() if r}
 SYSTEMS = ["mks", "imperial", "cgs"]
 
 # unit strings; every name is multiplicative except the ones in PARSE_ONLY
 US_PARSED = ["meter", "m", "km", "kilometer", "yard", "foot", "ft", "inch", "mile", "kiloinch",
              "millikiloinch", "smoot", "smt", "kilosmoot", "blip", "zork", "second", "hour",
-             "km/hour", "mile/hour", "meter**2/second", "kilogram", "pound", "gram", "kph",
+             "km/hour", "mile/hour", "meter**2/second", "kilogram", "pound", "gram", "kph", "hertz", "joule", "kelvin",
              "dimensionless", ""]
 US_RAW = [s for s in US_PARSED if s != "dimensionless"]
 PARSE_ONLY = ["degC", "degC/hour", "kilodegC", "nosuchunit", "kiloblip", "millikilosmoot"]
@@ -780,11 +782,11 @@ def random_ops(rng, n, model_only=True, with_other=True):
         elif x < 0.58:
             op = ("base", rng.choice(US_RAW), rng.choice([None, None, None, "imperial", "mks", "cgs"]))
         elif x < 0.66:
-            op = ("compat", rng.choice(US_RAW))
+            op = ("compat", rng.choice(US_RAW if model_only or rng.random() < 0.5 else ["meter", "hertz", "joule", "kelvin", "gram", "second"]))
         elif x < 0.71:
             op = ("define", rng.choice(MAIN_DEFS))
         elif x < 0.79:
-            op = ("enable", rng.choice(["ra", "rb", "rn", "ra", "rb"] + ([] if model_only else ["sp"])))
+            op = ("enable", rng.choice(["ra", "rb", "rn", "ra", "rb"] + ([] if model_only else ["sp", "boltzmann", "energy", "sp"])))
         elif x < 0.86:
             op = ("disable",)
         elif x < 0.91:
@@ -867,6 +869,12 @@ def isolation_histories():
 # the base-unit memo against systems x contexts: every sequence up to length 5 / 6
 BASE_ALPHABET = [("base", "inch", None), ("base", "inch", "imperial"), ("enable", "ra"), ("disable",),
                  ("setsys", "imperial"), ("setsys", None)]
+
+
+# get_compatible_units / conversions against combinations of contexts WITH transformation rules
+# (compared with the fresh registry only): every sequence up to length 4 / 5
+RULES_ALPHABET = [("enable", "sp"), ("enable", "boltzmann"), ("enable", "energy"), ("disable",),
+                  ("compat", "meter"), ("compat", "joule"), ("compat", "kelvin"), ("to", "meter", "hertz", "1")]
 
 
 WITNESSES = {
@@ -1128,8 +1136,8 @@ def run(ck):
                "(asked that one question in its own fork); random histories 40/200 ops over convert, parse, root/base units, "
                "dimensionality, compatible units, define x3, enable/disable x3 contexts, default_system x4, tracked ndarray quantity, "
                "second registry; exhaustive depth 3/4 over 12 ops; oracle-only stream with format/to_compact/to/contains and the "
-               "spectroscopy context. non-trivial = distinct (history id, step)")
-    ck.assumptions += ["contexts of the model carry unit redefinitions only; with the spectroscopy context active convert / "
+               "spectroscopy, boltzmann and energy contexts (exhaustive depth 4/5 over 8 ops). non-trivial = distinct (history id, step)")
+    ck.assumptions += ["contexts of the model carry unit redefinitions only; with a context with transformation rules (sp, boltzmann, energy) active convert / "
                        "get_compatible_units are compared with the fresh registry only",
                        "formatting, to_compact, Quantity.to, is_compatible_with, `in` are compared with the fresh registry only",
                        "F3 (lazily registered names are prefixable) is guarded by a model switch, its name-level theory is C08's"]
@@ -1193,6 +1201,8 @@ def _run(ck, rng, thorough, klass, tk, systems, fresh, chk, coq_ok):
     alpha_b = BASE_ALPHABET if thorough else [o for o in BASE_ALPHABET if not (o[0] == "base" and o[2] is not None)]
     roots_b = [[a, b] for a in alpha_b for b in alpha_b]
     trees_b = parallel(lambda pre: explore(alpha_b, depth_b, pre), roots_b)
+    depth_r = 5 if thorough else 4
+    trees_r = parallel(lambda op: explore(RULES_ALPHABET, depth_r, [op]), RULES_ALPHABET)
     T["exhaustive"] = time.time()
 
     # ---- 3. the fresh-registry oracle on every step
@@ -1218,9 +1228,16 @@ def _run(ck, rng, thorough, klass, tk, systems, fresh, chk, coq_ok):
             flat.append(([pre[0]], p0[1], p0[2], p0[3], p0[4]))
         flat.append((list(pre), p1[1], p1[2], p1[3], p1[4]))
         flatten_tree(list(pre), kids, flat)
+    n_base = len(flat) - n_general
+    for op0, (precs, kids) in zip(RULES_ALPHABET, trees_r):
+        p = precs[0]
+        flat.append(([op0], p[1], p[2], p[3], p[4]))
+        flatten_tree([op0], kids, flat)
     ck.extra["exhaustive_histories"] = len(flat)
-    ck.extra["exhaustive_depth"] = {"12-op alphabet": depth, f"{len(alpha_b)}-op base-units alphabet": depth_b}
-    ck.extra["exhaustive_histories_by_alphabet"] = {"12-op alphabet": n_general, f"{len(alpha_b)}-op base-units alphabet": len(flat) - n_general}
+    ck.extra["exhaustive_depth"] = {"12-op alphabet": depth, f"{len(alpha_b)}-op base-units alphabet": depth_b,
+                                    "8-op rule-contexts alphabet (oracle only)": depth_r}
+    ck.extra["exhaustive_histories_by_alphabet"] = {"12-op alphabet": n_general, f"{len(alpha_b)}-op base-units alphabet": n_base,
+                                                    "8-op rule-contexts alphabet (oracle only)": len(flat) - n_general - n_base}
     for h, rr, ans, before, qu in flat:
         inner = h[-1][1] if h[-1][0] == "other" else h[-1]
         q = oracle_question(inner, qu)
